@@ -30,6 +30,9 @@ def parse(enc):
             pos += 1
             if (c == "<" and enc[pos] in "?!") or (c == "[" and enc[pos] == "="):
                 pos += 1
+            elif c == "[" and enc[pos] == "@":
+                cls = {"s": "Seq", "i": "Iterable"}.get(enc[pos + 1], "Seq")
+                pos += 6
             items = []
             if enc[pos] == close:
                 pos += 1
@@ -42,8 +45,10 @@ def parse(enc):
                     return ("list", cls, items)
         if c == "{":
             pos += 1
-            user = enc[pos] == "="
-            if user:
+            user = enc[pos] in "=@"
+            if enc[pos] == "@":
+                pos += 6
+            elif user:
                 pos += 1
             ps = []
             if enc[pos] == "}":
@@ -132,7 +137,7 @@ ENUM_OF = {"vec": "Seq", "tuple": "Iter|Seq|Empty", "iter": "Iter", "sized": "It
            "bset": "RevIter", "hset": "Iter", "vmap": "RevKeyValueIter", "hmap": "KeyValueIter", "bstrmap": "RevKeyValueIter",
            "hstrmap": "KeyValueIter", "omap": "Values", "oseq": "Seq", "strkeys": "Str", "empty": "Empty", "plain": "NonEnumerable",
            "string": "str", "safestring": "str", "bytes": "bytes"}
-TPL_NAMES = ["lt", "eq", "in-list", "in-map", "lookup", "le", "gt", "in-map2", "lookup2"]
+TPL_NAMES = ["lt", "eq", "in-list", "in-map", "lookup", "le", "gt", "in-map2", "lookup2", "unique", "select-eq"]
 
 
 def check_mode(r, mode, exe):
@@ -182,13 +187,20 @@ def check_mode(r, mode, exe):
             r.oracle_failure(cv, f"[{feats}] a clone hashes differently: {res}", "clone-hash:" + rf[0])
         if not nan and (d["selfeq"] != want_eq or d["cloneeq"] != want_eq):
             r.oracle_failure(cv, f"[{feats}] == is not reflexive: {res}", "eq-refl:" + rf[0])
+        # a reported length is the number of items a walk yields; truthiness is `len != Some(0)`
+        if "<!" not in enc_ and d.get("ilen", "-") != "-" and d.get("icount", "-") != "-":
+            r.hist["length-law"]["checked"] += 1
+            if d["ilen"] != d["icount"]:
+                r.oracle_failure(cv, f"[{feats}] the value reports length {d['ilen']} but iterating it yields {d['icount']} items", "len-vs-count:" + rf[0])
+            elif d.get("truthy") != ("0" if d["icount"] == "0" else "1"):
+                r.oracle_failure(cv, f"[{feats}] truthiness {d.get('truthy')} of a value with {d['icount']} items and a known length", "truthy-vs-count:" + rf[0])
         m = model_of.get(case)
         if m is not None and m != "nomodel":
             mf = m.split()
             md = dict(x.split("=") for x in mf[1:]) if len(mf) > 1 else {}
             if mf[0] != rf[0]:
                 r.model_disagreement(cv, res, m)
-            elif md.get("len") != d.get("len"):
+            elif md.get("len") != d.get("len") and d.get("len", "-") not in ("?", "-") and enc_.startswith("{") and enc_[1:2] not in ("=", "@"):
                 # the map does not hold the pairs it was built from (keys pairwise non-Equal under Ord)
                 z.skip.add(i)
                 ks = [k for k, _ in z.trees[i][1]]
@@ -291,6 +303,8 @@ def check_mode(r, mode, exe):
             handle_val(z, int(f[2]), f[3], res, case)
         elif st == "rpair":
             batches[f[1]].M[(int(f[2]), int(f[3]))] = res.split()
+        elif st == "rtpl":
+            batches[f[1]].tpl[(int(f[2]), int(f[3]))] = res
         elif st == "fa":
             pass
         elif st == "fv":
@@ -383,32 +397,43 @@ def check_mode(r, mode, exe):
     r.extra["random_values"] = sum(len(z.vals) for z in batches.values())
 
     # ---------------------------------------------------------------- template operators
-    for (i, j), t in tpl.items():
-        r.count(("tpl", mode, vals[i], vals[j]), i != j, n=len(TPL_NAMES))
-        if i in skip_vals or j in skip_vals:
-            continue
-        c, e, h = M[(i, j)][:3]
-        if "P" in (c, e, h):
-            continue
-        exp = [str(int(c == "L")), e, e, None, None, str(int(c in "LE")), str(int(c == "G")), None, None]
-        fd = first_diff(trees[i], trees[j])
-        for k, name in enumerate(TPL_NAMES):
-            if t[k] == "P":
-                r.oracle_failure(pv(i, j), f"[{feats}] template `{name}` panics", f"panic:tpl-{name}:{fd}")
-            elif exp[k] is not None and t[k] != exp[k]:
-                r.oracle_failure(pv(i, j), f"[{feats}] template `{name}` gives {t[k]} but Value::cmp={c}, ==:{e}", f"tpl-{name}:{fd}")
-        # a key that is == to the stored key but hashes differently is found or not depending on the
-        # hash table layout (random per map): the root cause is reported as lookup-vs-eq
-        lsite = "lookup-vs-eq" if (e == "1" and h == "0") else "in-vs-lookup"
-        if t[3] != t[4]:
-            r.oracle_failure(pv(i, j), f"[{feats}] `a in {{b:1}}` is {t[3]} but `{{b:1}}[a] is defined` is {t[4]}", f"{lsite}:{fd}")
-        if not (nan[i] or nan[j]) and t[4] != e:
-            r.oracle_failure(pv(i, j), f"[{feats}] `{{b:1}}[a] is defined` is {t[4]} but (a==b)={e}", f"lookup-vs-eq:{fd}")
-        # the same with a second entry in the map (an IndexMap hashes only when it has more than one entry)
-        if t[7] != t[8]:
-            r.oracle_failure(pv(i, j), f"[{feats}] `a in {{b:1,S:2}}` is {t[7]} but `{{b:1,S:2}}[a] is defined` is {t[8]}", f"{lsite}:{fd}")
-        if not (nan[i] or nan[j]) and t[8] != e:
-            r.oracle_failure(pv(i, j), f"[{feats}] `{{b:1,S:2}}[a] is defined` is {t[8]} but (a==b)={e}", f"lookup-vs-eq:{fd}")
+    def check_tpl(z):
+        vals, trees, M, tpl, skip_vals = z.vals, z.trees, z.M, z.tpl, z.skip
+        nan = {i: has_nan(trees[i]) for i in vals}
+
+        def pv(i, j):
+            return f"pairv {vals[i]} {vals[j]}"
+        for (i, j), t in tpl.items():
+            r.count(("tpl", mode, vals[i], vals[j]), i != j, n=len(TPL_NAMES))
+            if i in skip_vals or j in skip_vals:
+                continue
+            c, e, h = M[(i, j)][:3]
+            if "P" in (c, e, h):
+                continue
+            exp = [str(int(c == "L")), e, e, None, None, str(int(c in "LE")), str(int(c == "G")), None, None,
+                   str(int(c == "E")), e]
+            fd = first_diff(trees[i], trees[j])
+            for k, name in enumerate(TPL_NAMES):
+                if t[k] == "P":
+                    r.oracle_failure(pv(i, j), f"[{feats}] template `{name}` panics", f"panic:tpl-{name}:{fd}")
+                elif exp[k] is not None and t[k] != exp[k] and not (name == "select-eq" and (nan[i] or nan[j]) and False):
+                    r.oracle_failure(pv(i, j), f"[{feats}] template `{name}` gives {t[k]} but Value::cmp={c}, ==:{e}", f"tpl-{name}:{fd}")
+            # a key that is == to the stored key but hashes differently is found or not depending on the
+            # hash table layout (random per map): the root cause is reported as lookup-vs-eq
+            lsite = "lookup-vs-eq" if (e == "1" and h == "0") else "in-vs-lookup"
+            if t[3] != t[4]:
+                r.oracle_failure(pv(i, j), f"[{feats}] `a in {{b:1}}` is {t[3]} but `{{b:1}}[a] is defined` is {t[4]}", f"{lsite}:{fd}")
+            if not (nan[i] or nan[j]) and t[4] != e:
+                r.oracle_failure(pv(i, j), f"[{feats}] `{{b:1}}[a] is defined` is {t[4]} but (a==b)={e}", f"lookup-vs-eq:{fd}")
+            # the same with a second entry in the map (an IndexMap hashes only when it has more than one entry)
+            if t[7] != t[8]:
+                r.oracle_failure(pv(i, j), f"[{feats}] `a in {{b:1,S:2}}` is {t[7]} but `{{b:1,S:2}}[a] is defined` is {t[8]}", f"{lsite}:{fd}")
+            if not (nan[i] or nan[j]) and t[8] != e:
+                r.oracle_failure(pv(i, j), f"[{feats}] `{{b:1,S:2}}[a] is defined` is {t[8]} but (a==b)={e}", f"lookup-vs-eq:{fd}")
+    check_tpl(zoo)
+    for b, z in sorted(batches.items()):
+        if z.tpl:
+            check_tpl(z)
     r.sample({"mode": mode, "pair": [vals[idx[5]], vals[idx[40]]], "cmp eq samehash": M[(idx[5], idx[40])]})
     r.sample({"mode": mode, "pair": [vals[idx[-3]], vals[idx[-4]]], "cmp eq samehash": M[(idx[-3], idx[-4])]})
 
@@ -438,7 +463,7 @@ def run(r):
                      "str::to_lowercase in `unique` is a parameter of the model (the theorems hold for every lower-casing function); the driver uses ASCII lower-casing, the alphabets are ASCII",
                      "object identity short-cuts (is_same_object) only ever return what the structural comparison of a value with itself returns",
                      "batch/slice counts for which `count` list headers cannot be held in memory but can be reserved are outside the quantifier (resource exhaustion, not a panic)"]
-    r.regen_tables(["VALUE_KIND_ORDER", "C07_CMP_KIND_ALIAS", "C07_VALUE_MAP_STR_SCAN_MAX", "C07_HASH_ZERO_KINDS"])
+    r.regen_tables(["VALUE_KIND_ORDER", "C07_CMP_KIND_ALIAS", "C07_VALUE_MAP_STR_SCAN_MAX", "C07_HASH_ZERO_KINDS", "C07_QUERY_LEN_ARMS"])
     r.lean_prove("MJ.Props.C07", "MJ/Audit/C07.lean", extra_targets=["drive_c07"])
     r.exhaustive = False
     for mode, feats in (("btree", ()), ("index", ("preserve_order",))):
